@@ -47,6 +47,18 @@ Theorem C20_termination_possible : forall n prev seed,
 Proof. exact random_layer_exists. Qed.
 Print Assumptions C20_termination_possible.
 
+(* quantitative form: in EVERY state of the pairing loop (any candidate list) at least half of the outcomes of
+   sample(candidates, 2) - the ordered pairs of different candidates, len*(len-1) of them - are accepted.
+   (With a generator whose draws are independent and uniform the loop therefore ends with probability one;
+   that statement about CPython's generator is outside the model.) *)
+Theorem C20_accept_probability_half : forall prev crq,
+  prev_wf prev ->
+  (length (ordered_pairs crq) <= 2 * length (accepted_pairs prev crq))%nat /\
+  length (ordered_pairs crq) = (length crq * (length crq - 1))%nat /\
+  (NoDup crq -> forall a b, In (a, b) (ordered_pairs crq) <-> In a crq /\ In b crq /\ a <> b).
+Proof. exact (fun prev crq PW => conj (accept_half prev crq PW) (conj (ordered_pairs_length crq) (ordered_pairs_in crq))). Qed.
+Print Assumptions C20_accept_probability_half.
+
 (* random_individual: valid, n qubits, n_layers layers, every adjacent pair of layers free of repeats *)
 Theorem C20_individual_chain : forall n n_layers randomize seed s fuel,
   1 <= n -> 1 <= n_layers ->
